@@ -351,7 +351,7 @@ def run(ctx):
                 'integer matrices through det_and_inv/inverses/determinants; call HISTORIES: per knot-vector pair on a common mesh 3-5 calls in one process mixing weighted/unweighted 1-D forms, '
                 'asym forms, 2-D mass/stiffness, inner_products/integrate, load_vector, each compared with the stateless model of that call, with a bitwise monitor of the '
                 'arrays returned by make_iterated_quadrature/gauss_rule; fast-assembler histories: 3-6 mass_fast/stiffness_fast calls on spaces of different sizes '
-                '(2-D and small 3-D), each sequence in one fresh process, plus requested-tolerance sweeps 1e-4..1e-13 (3-D twisted box, 2-D), every result vs the Gauss assembler at 32*tol*max(1,max|A|).  non-trivial = more than one span or degree >= 1; distinct by request line')
+                '(2-D and small 3-D), each sequence in one fresh process, plus requested-tolerance sweeps 1e-4..1e-13 (3-D twisted box, 2-D), every result vs the Gauss assembler within the ABSOLUTE bound 32*tol + 64*eps*max|A|, also on uniformly scaled and anisotropically stretched geometries.  non-trivial = more than one span or degree >= 1; distinct by request line')
     req, exp, meta = [], [], []
 
     def add(r, thunk, m):
@@ -1355,7 +1355,7 @@ def run(ctx):
                 Af = ffast(kvs, geo=geo, tol=tol, verbose=0).toarray()
                 Ar = fref(kvs, geo=geo).toarray()
                 err = np.abs(Af - Ar).max()
-                bound = 100 * tol * max(1.0, np.abs(Ar).max())
+                bound = 100 * tol + 64 * 2.0 ** -52 * np.abs(Ar).max()       # absolute (see fast_bound below)
                 nor += 1
                 ctx.count(nm + ' %dD' % dim)
                 if not err <= bound:
@@ -1383,6 +1383,8 @@ def run(ctx):
         "for c in seq:\n"
         "    kvs = tuple(bspline.make_knots(p, 0.0, 1.0, n) for p, n in zip(c['ps'], c['ns']))\n"
         "    g = mkgeo(c['geo'])\n"
+        "    if c.get('scale') is not None:\n"
+        "        g = g.scale(tuple(c['scale']) if isinstance(c['scale'], list) else c['scale'])\n"
         "    try:\n"
         "        A = getattr(assemble, c['fn'])(kvs, geo=g, tol=c['tol'], verbose=0).toarray()\n"
         "        B = getattr(assemble, c['fn'][:-5])(kvs, geo=g).toarray()\n"
@@ -1407,12 +1409,16 @@ def run(ctx):
 
     # requested-tolerance sweep (property: "within a small multiple of its REQUESTED tolerance on smooth geometries"): the same
     # space assembled with tol = 1e-4 .. 1e-13 (shuffled) by mass_fast and stiffness_fast, on geometries whose matrices do not
-    # have tiny Kronecker rank (3-D twisted box: the entrywise error tracks the ACA tolerance; measured 0.1..4.3 * tol on the
-    # unchanged tree for every tol) and on 2-D perturbed square / NURBS annulus.  Bound FAST_C * tol * max(1,max|A|) + 2^-40 max|A|.
+    # have tiny Kronecker rank (3-D twisted box: the entrywise error tracks the ACA tolerance; measured 0.1..4.8 * tol on the
+    # unchanged tree for every tol) and on 2-D perturbed square / NURBS annulus, at unit size, uniformly scaled by 2^5..2^13 and
+    # anisotropically stretched by powers of two (entries up to ~1e9).  Bound FAST_C * tol + FAST_K * eps * max|A| (absolute).
     FAST_C = 32.0
+    FAST_K = 64.0
 
     def fast_bound(c, mx):
-        return FAST_C * c['tol'] * max(1.0, mx) + 2.0 ** -40 * mx
+        """ABSOLUTE entrywise bound: c*tol (the property: "a small multiple of its requested tolerance") + rounding floor k*eps*max|A|.
+        Measured on the unchanged tree over scales 1..2^13 and stretches up to 2^16:1: error <= max(4.8*tol, 11*eps*max|A|)."""
+        return FAST_C * c['tol'] + FAST_K * 2.0 ** -52 * mx
 
     def sweep_seq(k):
         fn = ('stiffness_fast', 'mass_fast')[k % 2]
@@ -1423,11 +1429,19 @@ def run(ctx):
         else:
             base = {'fn': fn, 'ps': [int(orng.integers(1, 4)) for _ in range(2)], 'ns': [int(orng.integers(4, 9)) for _ in range(2)],
                     'geo': ('perturbed_square', 'quarter_annulus')[int(orng.integers(0, 2))]}
+        dim_ = len(base['ps'])
+        mode = k % 3
+        if mode == 1:
+            base['scale'] = float(2.0 ** int(orng.integers(5, 14)))
+        elif mode == 2:
+            ex = [int(orng.integers(-3, 4)) for _ in range(dim_)]
+            ex[int(orng.integers(0, dim_))] = int(orng.integers(8, 14))
+            base['scale'] = [float(2.0 ** e) for e in ex]
         tols = [1e-4, 1e-6, 1e-8, 1e-10, 1e-12, 1e-13]
         return [dict(base, tol=tols[j], sweep=True) for j in orng.permutation(6)]
 
     nfh = 8 if quick else 60
-    nsw = 4 if quick else 24
+    nsw = 6 if quick else 24
     for it in range(nfh + nsw):
         kind = it % 4
         if it >= nfh:
@@ -1459,6 +1473,8 @@ def run(ctx):
             oracle_fail('gal-hist:fast-runner', 'fast-assembler history did not complete: %s' % detail, {'sequence': seq})
             continue
         for k, ((err, mx, err_noskip), c) in enumerate(zip(res, seq)):
+            if not isinstance(err, str):
+                ctx.extra['fast_worst_error_over_bound'] = round(max(ctx.extra.get('fast_worst_error_over_bound', 0.0), err / fast_bound(c, mx)), 4)
             okc = not isinstance(err, str) and err <= fast_bound(c, mx)
             if not okc:
                 first_same = next((j for j in range(k) if seq[j] == c), None)
@@ -1475,13 +1491,13 @@ def run(ctx):
                     key_ = 'gal:aca-slice-skip'
                     extra += '; with skipcount=10**6 the same call is within the bound (error %r): premature stop of the slice ACA on skipped rows' % err_noskip
                 ctx.violation(key_,
-                              'call #%d of the fresh-process sequence %s: %s(degrees %s, spans %s, geo=%s, tol=%g) differs from the Gauss assembler by %r (max|A| = %r; bound %g*tol*max(1,max|A|) + 2^-40 max|A|)%s'
-                              % (k + 1, [cc['fn'] for cc in seq[:k + 1]], c['fn'], c['ps'], c['ns'], c['geo'], c['tol'], err, mx, FAST_C, extra),
+                              'call #%d of the fresh-process sequence %s: %s(degrees %s, spans %s, geo=%s, scale=%s, tol=%g) differs from the Gauss assembler by %r (max|A| = %r; absolute bound %g*tol + %g*eps*max|A| = %.3g)%s'
+                              % (k + 1, [cc['fn'] for cc in seq[:k + 1]], c['fn'], c['ps'], c['ns'], c['geo'], c.get('scale'), c['tol'], err, mx, FAST_C, FAST_K, fast_bound(c, mx), extra),
                               {'sequence (run in this order in one fresh process; make_knots(p,0,1,n) per axis)': seq[:k + 1],
                                'errors_per_call': res[:k + 1]}, True)
                 break
     ctx.extra['oracle_cross_checks'] = nor
-    ctx.notes.append('mass_fast/stiffness_fast (C++ ACA) are compared with the Gauss assembler at 100*tol*max|A| (in-process random stream, tol=1e-10) and at 32*tol*max(1,max|A|) + 2^-40 max|A| (fresh-process histories and requested-tolerance sweeps 1e-4..1e-13): float-level evidence, no Lean statement')
+    ctx.notes.append('mass_fast/stiffness_fast (C++ ACA) are compared with the Gauss assembler by ABSOLUTE entrywise bounds: 100*tol + 64*eps*max|A| (in-process random stream, tol=1e-10) and 32*tol + 64*eps*max|A| (fresh-process histories and requested-tolerance sweeps 1e-4..1e-13 at unit size, scaled 2^5..2^13 and stretched by powers of two): float-level evidence, no Lean statement')
 
     # ---- excluded point of biform_1d_asym: quadgrid coarser than a knot vector (documented behaviour) ----
     kv1 = bspline.make_knots(1, 0.0, 1.0, 1); kv2 = bspline.make_knots(1, 0.0, 1.0, 2)
